@@ -6,6 +6,7 @@ from fractions import Fraction
 import indic
 from indic import dirs_w, set_f, set_q, close
 from common import wf, wq, wlist, bits2f
+import plat
 from plat import mk_problem, mk_sol, call
 
 from platypus import indicators as I
@@ -22,6 +23,7 @@ def run(ctx, drv):
     def ask(line, fn):
         reqs.append(line); post.append(fn)
     ncase = 2500 if ctx.quick() else 40000
+    hv_pool = {}
     for t in range(ncase):
         lattice = t % 2 == 0
         nobjs = rng.choice([2, 2, 3, 3, 4, 5])
@@ -38,6 +40,7 @@ def run(ctx, drv):
             ref[0].objectives[:] = [0.0] * nobjs
             ref[1].objectives[:] = [1.0 if rng.random() < 0.7 else 2.0] * nobjs
             ref[0].constraint_violation = ref[1].constraint_violation = 0.0
+            plat.changed_on_purpose(ref[0]); plat.changed_on_purpose(ref[1])
             hv = call(lambda: I.Hypervolume(reference_set=ref))
             if isinstance(hv, str):
                 ctx.fail("constructor-raises", {"reference": [list(s.objectives) for s in ref]}, hv, "indicator", "indicators.Hypervolume.__init__")
@@ -46,7 +49,14 @@ def run(ctx, drv):
         else:
             mn = [0.0] * nobjs if rng.random() < 0.7 else [rng.choice([-1.0, 0.0, 0.25]) for _ in range(nobjs)]
             mx = [a + rng.choice([1.0, 1.0, 2.0, 0.5]) for a in mn]
-            hv = I.Hypervolume(minimum=list(mn), maximum=list(mx))
+            # an indicator object is a function of its bounds only: it is re-used for sets of other problems (other direction
+            # assignments) with the same bounds, as a user comparing several problems' results would
+            key = (tuple(mn), tuple(mx))
+            if key in hv_pool and rng.random() < 0.6:
+                hv = hv_pool[key]
+                ctx.count("indicator_objects_reused")
+            else:
+                hv = hv_pool[key] = I.Hypervolume(minimum=list(mn), maximum=list(mx))
         got = call(hv.calculate, list(sols))
         inp = {"maximise": list(dirs), "minimum": mn, "maximum": mx, "set": [[list(s.objectives), s.constraint_violation] for s in sols],
                "same_object_twice": len({id(s) for s in sols}) < len(sols)}
